@@ -138,6 +138,13 @@ def run(chk):
                 cases.append(C.encode_case("meshio", sc=[dict(OBJ=0, OFF=1, PLY=2, VTK=3)[fmt]], idx=lines))
             elif fmt == "STL":
                 judge_stl(chk, desc, text, V, F)
+                # ... and through the Coq parser of the STL grammar (Model/MeshIO.v parse_stl; C20_stl_roundtrip): corners that are exactly
+                # (shifted) vertices become vertex tokens, every other number the keyword NUM
+                lines = lex_stl(text, V)
+                if lines is not None:
+                    want = [x for f in F for k in range(1, len(f) - 1) for x in (f[0], f[k], f[k + 1])]
+                    meta.append(dict(desc=desc, fmt=fmt, want=want, i=len(cases)))
+                    cases.append(C.encode_case("meshio", sc=[5, len(V)], idx=lines))
             else:
                 r = judge_x3d(chk, desc, text, V, F, fmt)
                 if r is not None:
@@ -174,6 +181,12 @@ def run(chk):
             if int(r[0]) != 1 or [int(x) for x in r[2:]] != m["sizes"]:
                 chk.violation("x3d-coordIndex", dict(desc, parsed=None if int(r[0]) != 1 else [int(x) for x in r[2:]]))
             continue
+        if fmt == "STL":
+            chk.count("stl:coq-parser")
+            if int(r[0]) != 1 or [int(x) for x in r[1:]] != m["want"]:
+                chk.violation("stl-facets", dict(desc, what="the Coq STL parser does not recover the fan triangles of the faces",
+                                                 parsed=None if int(r[0]) != 1 else [int(x) for x in r[1:]][:12], expected=m["want"][:12]))
+            continue
         mesh = decode_mesh(r)
         if mesh is None:
             if fmt == "OFF" and chk.is_known("off-face-count-token") and re.search(r"^\d+ f\d+ \d+$", "\n".join(l for l in open_lines(desc)), re.M) is None:
@@ -196,6 +209,38 @@ def run(chk):
 
 def open_lines(desc):
     return []
+
+
+STLKW = {"facet": 25, "normal": 26, "outer": 28, "loop": 29, "endloop": 30, "endfacet": 31, "solid": 32, "endsolid": 33, "vertex": 8}
+
+
+def lex_stl(text, V):
+    """token lines for the Coq STL parser, or None when a corner is not (exactly) a vertex - reported by judge_stl.  (to_stl's shift "so that
+    all coordinates are positive" acts on a temporary copy of the centroid and has no effect: corners are the vertices themselves.)"""
+    index = {tuple(v): i for i, v in enumerate(V.tolist())}
+    lines = []
+    for ln in text.split("\n"):
+        w = ln.split()
+        if not w:
+            continue
+        if w[0] == "vertex" and len(w) == 4:
+            try:
+                p = tuple(float(x) for x in w[1:4])
+            except ValueError:
+                return None
+            if p not in index:
+                return None
+            i = index[p]
+            lines.append([4 * 8 + 2, 4 * (3 * i) + 1, 4 * (3 * i + 1) + 1, 4 * (3 * i + 2) + 1])
+        else:
+            toks = []
+            for x in w:
+                if FLT.match(x) or INT.match(x):
+                    toks.append(4 * 27 + 2)
+                else:
+                    toks.append(4 * STLKW.get(x.lower(), 0) + 2)
+            lines.append(toks)
+    return lines
 
 
 def judge_stl(chk, desc, text, V, F):
